@@ -53,7 +53,7 @@ struct RouterSpec { addr: u8, peers: Vec<PeerSpec> }
 /// `mark`: an empty MP_UNREACH_NLRI (IPv6 unicast) is appended to the path attributes — what
 /// `UpdateMessage::is_eor()` keys on (alone: the IPv6 End-of-RIB marker).
 #[derive(Clone, Debug, PartialEq)]
-struct RmSpec { upd: Upd, mark: bool }
+struct RmSpec { upd: Upd, mark: bool, /** number of standard communities carried besides (0 = none): 2500 of them make the UPDATE longer than 9 KiB, legal in BMP (RFC 8654 extended messages) and far beyond the usual 4096 */ fat: u16 }
 
 #[derive(Clone, Debug, PartialEq)]
 enum M { Init, Term, PeerUp(usize), PeerDown(usize), Stats(usize), Rm(usize, RmSpec) }
@@ -88,12 +88,12 @@ fn parse_scn_routers(s: &str) -> Option<Vec<RouterSpec>> {
 
 /// `attr;ann;wd;mp4;corrupt;mark` — the informational 4th part of a Route Monitoring token (replay).
 fn show_rmspec(s: &RmSpec) -> String {
-    format!("{};{};{};{};{};{}", s.upd.attr, show_nlris(&s.upd.ann), show_nlris(&s.upd.wd), s.upd.mp4 as u8, s.upd.corrupt, s.mark as u8)
+    format!("{};{};{};{};{};{};{}", s.upd.attr, show_nlris(&s.upd.ann), show_nlris(&s.upd.wd), s.upd.mp4 as u8, s.upd.corrupt, s.mark as u8, s.fat)
 }
 fn parse_rmspec(s: &str) -> Option<RmSpec> {
     let f: Vec<&str> = s.split(';').collect();
-    if f.len() != 6 { return None; }
-    Some(RmSpec { upd: Upd { attr: f[0].parse().ok()?, ann: parse_nlris(f[1])?, wd: parse_nlris(f[2])?, mp4: f[3] == "1", corrupt: f[4].parse().ok()? }, mark: f[5] == "1" })
+    if f.len() != 6 && f.len() != 7 { return None; }
+    Some(RmSpec { upd: Upd { attr: f[0].parse().ok()?, ann: parse_nlris(f[1])?, wd: parse_nlris(f[2])?, mp4: f[3] == "1", corrupt: f[4].parse().ok()? }, mark: f[5] == "1", fat: f.get(6).and_then(|x| x.parse().ok()).unwrap_or(0) })
 }
 
 /// Rebuild the ops from the event tokens of a case line.
@@ -137,7 +137,12 @@ fn mark_pdu(pdu: &[u8], pas: &[u8]) -> (Vec<u8>, Vec<u8>) {
 }
 
 fn rm_pdu(s: &RmSpec) -> Option<(Vec<u8>, Vec<u8>)> {
-    let (pdu, pas) = encode_update(&s.upd).ok()?;
+    let (pdu, pas) = if s.fat > 0 && s.upd.corrupt == 0 && !s.upd.ann.is_empty() {
+        let mut val = Vec::with_capacity(4 * s.fat as usize);
+        for i in 0..s.fat as u32 { val.extend_from_slice(&(64512u32 << 16 | (i & 0xffff)).to_be_bytes()); }
+        let mut extra = vec![0xC0 | 0x10, 8]; extra.extend_from_slice(&(val.len() as u16).to_be_bytes()); extra.extend_from_slice(&val);
+        verif_harness::rib::encode_update_with(&s.upd, &[], &extra).ok()?
+    } else { encode_update(&s.upd).ok()? };
     Some(if s.mark && s.upd.corrupt == 0 { mark_pdu(&pdu, &pas) } else { (pdu, pas) })
 }
 
@@ -468,7 +473,9 @@ fn gen_scn(rng: &mut Rng, pool: &[Pfx], rec: &mut Recorder) -> Scn {
         let k = rng.below(routers[r].peers.len() as u64) as usize;
         match rng.below(100) {
             0..=54 => {
-                let mut s = RmSpec { upd: gen_upd(rng, &focus, &safi_of), mark: false };
+                let mut s = RmSpec { upd: gen_upd(rng, &focus, &safi_of), mark: false, fat: 0 };
+                // one announcing UPDATE in forty is fat: 900 / 2500 / 8000 communities make it 4 / 10 / 32 KiB long
+                if s.upd.corrupt == 0 && !s.upd.ann.is_empty() && rng.chance(1, 40) { s.fat = *rng.pick(&[900u16, 2500, 8000]); rec.bump("rm-fat-update"); }
                 if s.upd.corrupt == 0 && rng.chance(1, 14) { s.mark = true; rec.bump(if s.upd.ann.is_empty() && s.upd.wd.is_empty() { "rm-ipv6-end-of-rib" } else { "rm-eor-marker-next-to-routes" }); }
                 rec.bump(if s.upd.corrupt != 0 { "rm-damaged" } else if s.upd.ann.is_empty() && s.upd.wd.is_empty() { "rm-no-nlri" } else if s.upd.ann.iter().any(|a| s.upd.wd.contains(a)) { "rm-overlap" } else { "rm-routes" });
                 ops.push(Op::Msg(i, M::Rm(k, s.clone())));
@@ -500,7 +507,7 @@ fn gen_scn(rng: &mut Rng, pool: &[Pfx], rec: &mut Recorder) -> Scn {
             ops.push(Op::Msg(cur[r], match kind {
                 0 => M::PeerUp(k),
                 1 => M::PeerDown(k),
-                _ => { let mut u = gen_upd(rng, &focus, &safi_of); if u.corrupt == 0 { u.corrupt = 1 + rng.below(3) as u8; } M::Rm(k, RmSpec { upd: u, mark: false }) }
+                _ => { let mut u = gen_upd(rng, &focus, &safi_of); if u.corrupt == 0 { u.corrupt = 1 + rng.below(3) as u8; } M::Rm(k, RmSpec { upd: u, mark: false, fat: 0 }) }
             }));
         }
         if kind == 1 { ops.insert(at, Op::Msg(cur[r], M::PeerUp(((k + 1) % routers[r].peers.len()) as usize))); }
@@ -508,7 +515,7 @@ fn gen_scn(rng: &mut Rng, pool: &[Pfx], rec: &mut Recorder) -> Scn {
         match rng.below(4) {
             0 => { ops.push(Op::Disconnect(cur[r])); rec.bump("op-connection-lost"); }
             1 => { ops.push(Op::Msg(cur[r], M::Term)); rec.bump("op-termination"); }
-            _ => { let s = RmSpec { upd: gen_upd(rng, &focus, &safi_of), mark: false }; ops.push(Op::Msg(cur[r], M::Rm(k, s))); ops.push(Op::Disconnect(cur[r])); }
+            _ => { let s = RmSpec { upd: gen_upd(rng, &focus, &safi_of), mark: false, fat: 0 }; ops.push(Op::Msg(cur[r], M::Rm(k, s))); ops.push(Op::Disconnect(cur[r])); }
         }
     }
     Scn { routers, ops }
@@ -522,7 +529,7 @@ fn main() {
     let pool = pool();
     let p24 = pool[2];
     let n24 = Nlri { pfx: p24, safi: Safi::U };
-    let ann = |attr: u32| RmSpec { upd: Upd { attr, ann: vec![n24], wd: vec![], mp4: false, corrupt: 0 }, mark: false };
+    let ann = |attr: u32| RmSpec { upd: Upd { attr, ann: vec![n24], wd: vec![], mp4: false, corrupt: 0 }, mark: false, fat: 0 };
     let one = |gr: bool| vec![RouterSpec { addr: 1, peers: vec![PeerSpec { base: 0, alt: 0, gr }] }];
     let start = vec![Op::Connect(0), Op::Msg(0, M::Init), Op::Msg(0, M::PeerUp(0))];
     let with = |tail: Vec<Op>| -> Vec<Op> { let mut v = start.clone(); v.extend(tail); v };
@@ -530,7 +537,7 @@ fn main() {
     // ---- variant detection: the three witnesses, replayed on the real code first
     let w_flap = Scn { routers: one(false), ops: with(vec![Op::Msg(0, M::Rm(0, ann(5))), Op::Msg(0, M::PeerDown(0)), Op::Msg(0, M::PeerUp(0)), Op::Msg(0, M::Rm(0, ann(7)))]) };
     let w_eor = Scn { routers: one(true), ops: with(vec![Op::Msg(0, M::Rm(0, RmSpec { mark: true, ..ann(5) }))]) };
-    let w_overlap = Scn { routers: one(false), ops: with(vec![Op::Msg(0, M::Rm(0, RmSpec { upd: Upd { attr: 7, ann: vec![n24], wd: vec![n24], mp4: false, corrupt: 0 }, mark: false }))]) };
+    let w_overlap = Scn { routers: one(false), ops: with(vec![Op::Msg(0, M::Rm(0, RmSpec { upd: Upd { attr: 7, ann: vec![n24], wd: vec![n24], mp4: false, corrupt: 0 }, mark: false, fat: 0 }))]) };
     let fin = |o: &Outcome| o.imp.split(" ## ").next().unwrap_or("").rsplit(" | ").next().unwrap_or("").to_string();
     rec.variant("flap", if fin(&run_scn(&w_flap, &[p24])).contains(".W.7/") { "as-written" } else { "repaired" });
     rec.variant("eorswallow", if fin(&run_scn(&w_eor, &[p24])).contains(".A.5/") { "repaired" } else { "as-written" });
@@ -556,8 +563,8 @@ fn main() {
     }
 
     // ---- witnesses / corpus
-    let wd24 = RmSpec { upd: Upd { attr: 0, ann: vec![], wd: vec![n24], mp4: false, corrupt: 0 }, mark: false };
-    let eor4 = RmSpec { upd: Upd { attr: 0, ann: vec![], wd: vec![], mp4: false, corrupt: 0 }, mark: false };
+    let wd24 = RmSpec { upd: Upd { attr: 0, ann: vec![], wd: vec![n24], mp4: false, corrupt: 0 }, mark: false, fat: 0 };
+    let eor4 = RmSpec { upd: Upd { attr: 0, ann: vec![], wd: vec![], mp4: false, corrupt: 0 }, mark: false, fat: 0 };
     let two = vec![RouterSpec { addr: 1, peers: vec![PeerSpec { base: 0, alt: 0, gr: true }, PeerSpec { base: 1, alt: 0, gr: true }] }, RouterSpec { addr: 2, peers: vec![PeerSpec { base: 0, alt: 0, gr: false }] }];
     let corpus = vec![
         w_flap.clone(), w_eor.clone(), w_overlap.clone(),
